@@ -205,6 +205,18 @@ def gen_cases(rng, tier):
                 cases.append(_statio(rng, dim, n, b, nb, bb, method, _req(rng, n, b, deep)))
     cases.append(_statio(rng, 2, 9, 4, 12, 2, "uniform", 6, x64=False))
     cases.append(_statio(rng, 2, 16, 5, 8, 1, "grid", 6, x64=False))
+    # the library's default precision on boxes whose bounds use the whole float32 mantissa and with |min| > |max|:
+    # a border coordinate computed as min + (max - min) instead of pinned to max leaves its facet by one ulp
+    import numpy as _np
+    f32 = lambda v: float(_np.float32(v))
+    for (mins, maxs) in (([-1.5, -2.5], [0.7, 0.1]), ([-2.5, -1.5], [0.1, 0.7])):
+        c = _statio(rng, 2, 9, 4, 12, 2, "uniform", 4, x64=False)
+        c["mins"], c["maxs"] = [f32(v) for v in mins], [f32(v) for v in maxs]
+        cases.append(c)
+        c2 = _nonstatio(rng, 2, 8, 2, 8, 2, 4, 2, True, "uniform", 3)
+        c2["x64"] = False
+        c2["mins"], c2["maxs"] = [f32(v) for v in mins], [f32(v) for v in maxs]
+        cases.append(c2)
     # ---- non-stationary
     for dim in (1, 2):
         for cart in (True, False):
